@@ -34,6 +34,11 @@ NOTES = [
     "c04_history imports C05's stack invariant as the hypothesis StacksRestored (discharged in PedalProofs/C05.lean)",
     "section line offsets (Submission.line_offsets) are not modelled - C17 covers them; histories use no sections",
     "time limits / threaded execution are C14's: every execution here is threaded=False",
+    "the model has no notion of SIZE (inputs consumed, output printed, traceback depth, message / argument / source "
+    "length) nor of the report's formatter: its answer depends on the termination descriptor only. That the real code "
+    "is equally indifferent is SAMPLED by the size sweep of the correspondence / search (limits read from the tree "
+    "under test), not proved - the text of the feedback message (format_contexts, format_traceback, Formatter) is "
+    "not modelled",
 ]
 
 
